@@ -404,6 +404,34 @@ func runOnce(c Case) Result {
 	anyErr := A.rerr != nil || A.werr != nil || B.rerr != nil || B.werr != nil
 	res.EndpointErr = anyErr
 	trace := func() string { return p.TraceTail(60) }
+	if res.Stalled && !stallErr && A.closed {
+		// closeearly: the application is gone, so nobody can be told, but the stack that gives
+		// up the exchange (close timer, retransmission budget) says so on the wire with a reset.
+		// That is the explicit failure; whether the peer can accept that one segment is beyond
+		// the aborting side's reach (all its data lost and the window full: SND.NXT lies just
+		// outside the peer's window; all data received but unacknowledged: SND.UNA would).
+		// The reset must be the one RFC 793 asks for (sequence number SND.NXT, i.e. the end
+		// of everything A has put on the wire): with any other number it is A's fault if the
+		// peer ignores it (F28).
+		var sent uint32
+		have := false
+		for _, e := range res.Events {
+			k := e.Pkt
+			if e.Dir != 0 || k.L4Kind != "tcp" {
+				continue
+			}
+			if k.Flags&codec.RST != 0 {
+				if have && k.Seq == sent {
+					stallErr = true
+					evid.Label("closeearly:aborted-with-a-reset")
+				}
+				break
+			}
+			if end := k.Seq + k.SegLen(); !have || int32(end-sent) > 0 {
+				sent, have = end, true
+			}
+		}
+	}
 	if res.Stalled {
 		res.EndpointErr = stallErr
 		if !stallErr {
